@@ -24,6 +24,8 @@ pub const KIND_LOAD_WALK: u32 = 2;
 pub const KIND_LOAD_WALK_NOIMG: u32 = 3;
 /// write the input to a temporary file and load it with `AsepriteFile::read_file`
 pub const KIND_LOAD_FILE: u32 = 4;
+/// several files loaded one after the other in the same process (see `run_seq`)
+pub const KIND_LOAD_SEQ: u32 = 5;
 
 #[derive(Clone, Debug, PartialEq, Eq, Hash)]
 pub enum Status {
@@ -95,6 +97,9 @@ pub fn walk_want(images: bool) -> Want {
 
 fn run_task(kind: u32, budget: u64, bytes: &[u8]) {
     use std::sync::atomic::Ordering::Relaxed as R;
+    if kind == KIND_LOAD_SEQ {
+        return run_seq(bytes);
+    }
     let base = alloc::LIVE.load(R);
     alloc::PEAK.store(base, R);
     alloc::LARGEST.store(0, R);
@@ -132,54 +137,145 @@ fn run_task(kind: u32, budget: u64, bytes: &[u8]) {
                 send_result(0, peak, largest, 0, "");
                 return;
             }
-            let want = walk_want(kind == KIND_LOAD_WALK);
-            let mut p = Vec::new();
-            let o = observe::guarded(&mut p, || "observe".into(), || observe::observe(&f, &want));
-            match o {
-                None => send_result(3, peak, largest, 0, &format!("observe: {}", p[0].1)),
-                Some(o) => {
-                    if let Some((l, m)) = o.panics.first() {
-                        send_result(3, peak, largest, 0, &format!("{}: {}", l, m));
-                    } else if !o.routes_agree {
-                        send_result(3, peak, largest, 0, &format!("routes disagree: {}", o.route_mismatch.clone().unwrap_or_default()));
-                    } else {
-                        // documented dimensions
-                        let mut bad = None;
-                        for fr in &o.frames {
-                            if let Some(i) = &fr.image {
-                                if (i.w as usize, i.h as usize) != (o.width, o.height) {
-                                    bad = Some(format!("frame image {}x{} on a {}x{} canvas", i.w, i.h, o.width, o.height));
-                                }
-                            }
-                        }
-                        for c in &o.cels {
-                            if let Some(i) = &c.image {
-                                if (i.w as usize, i.h as usize) != (o.width, o.height) {
-                                    bad = Some(format!("cel image {}x{} on a {}x{} canvas", i.w, i.h, o.width, o.height));
-                                }
-                            }
-                        }
-                        for t in &o.tilesets {
-                            if let Some(i) = &t.image {
-                                if (i.w, i.h as u64) != (t.tile_size.0 as u32, t.tile_size.1 as u64 * t.count as u64) {
-                                    bad = Some(format!("tileset image {}x{} for {} tiles of {:?}", i.w, i.h, t.count, t.tile_size));
-                                }
-                            }
-                            for i in &t.tile_images {
-                                if (i.w, i.h) != (t.tile_size.0 as u32, t.tile_size.1 as u32) {
-                                    bad = Some(format!("tile image {}x{} for tile size {:?}", i.w, i.h, t.tile_size));
-                                }
-                            }
-                        }
-                        match bad {
-                            Some(b) => send_result(3, peak, largest, 0, &format!("dimensions: {}", b)),
-                            None => send_result(0, peak, largest, hash64(&o), ""),
+            let (st, digest, msg) = walk_status(&f, kind == KIND_LOAD_WALK);
+            send_result(st, peak, largest, digest, &msg);
+        }
+    }
+}
+
+/// full walk of a loaded sprite: (status code, observation digest, message)
+fn walk_status(f: &asefile::AsepriteFile, images: bool) -> (u32, u64, String) {
+    let want = walk_want(images);
+    let mut p = Vec::new();
+    let o = observe::guarded(&mut p, || "observe".into(), || observe::observe(f, &want));
+    match o {
+        None => (3, 0, format!("observe: {}", p[0].1)),
+        Some(o) => {
+            if let Some((l, m)) = o.panics.first() {
+                (3, 0, format!("{}: {}", l, m))
+            } else if !o.routes_agree {
+                (3, 0, format!("routes disagree: {}", o.route_mismatch.clone().unwrap_or_default()))
+            } else {
+                // documented dimensions
+                let mut bad = None;
+                for fr in &o.frames {
+                    if let Some(i) = &fr.image {
+                        if (i.w as usize, i.h as usize) != (o.width, o.height) {
+                            bad = Some(format!("frame image {}x{} on a {}x{} canvas", i.w, i.h, o.width, o.height));
                         }
                     }
+                }
+                for c in &o.cels {
+                    if let Some(i) = &c.image {
+                        if (i.w as usize, i.h as usize) != (o.width, o.height) {
+                            bad = Some(format!("cel image {}x{} on a {}x{} canvas", i.w, i.h, o.width, o.height));
+                        }
+                    }
+                }
+                for t in &o.tilesets {
+                    if let Some(i) = &t.image {
+                        if (i.w, i.h as u64) != (t.tile_size.0 as u32, t.tile_size.1 as u64 * t.count as u64) {
+                            bad = Some(format!("tileset image {}x{} for {} tiles of {:?}", i.w, i.h, t.count, t.tile_size));
+                        }
+                    }
+                    for i in &t.tile_images {
+                        if (i.w, i.h) != (t.tile_size.0 as u32, t.tile_size.1 as u32) {
+                            bad = Some(format!("tile image {}x{} for tile size {:?}", i.w, i.h, t.tile_size));
+                        }
+                    }
+                }
+                match bad {
+                    Some(b) => (3, 0, format!("dimensions: {}", b)),
+                    None => (0, hash64(&o), String::new()),
                 }
             }
         }
     }
+}
+
+/// input: u32 n, n x (u64 length, u8 walk), then the n files back to back.  All n are loaded
+/// one after the other in this process; each load's peak is measured from its own entry
+/// level.  msg: one line per load "status|peak|largest|digest(hex)|message".
+fn run_seq(bytes: &[u8]) {
+    use std::sync::atomic::Ordering::Relaxed as R;
+    let bad = || send_result(9, 0, 0, 0, "machinery: malformed sequence task");
+    if bytes.len() < 4 {
+        return bad();
+    }
+    let n = u32::from_le_bytes(bytes[0..4].try_into().unwrap()) as usize;
+    let mut off = 4;
+    let mut parts = Vec::new();
+    for _ in 0..n {
+        if bytes.len() < off + 9 {
+            return bad();
+        }
+        parts.push((u64::from_le_bytes(bytes[off..off + 8].try_into().unwrap()) as usize, bytes[off + 8]));
+        off += 9;
+    }
+    let mut lines = Vec::new();
+    let (mut worst_peak, mut worst_largest) = (0u64, 0u64);
+    for (len, walk) in parts {
+        if bytes.len() < off + len {
+            return bad();
+        }
+        let b = &bytes[off..off + len];
+        off += len;
+        let base = alloc::LIVE.load(R);
+        alloc::PEAK.store(base, R);
+        alloc::LARGEST.store(0, R);
+        alloc::LIMIT.store(base.saturating_add(3 << 30), R);
+        let loaded = load(b);
+        let peak = (alloc::PEAK.load(R) - base).max(0) as u64;
+        let largest = alloc::LARGEST.load(R);
+        worst_peak = worst_peak.max(peak);
+        worst_largest = worst_largest.max(largest);
+        let (st, digest, msg) = match loaded {
+            Loaded::Err(e) => (1, 0, format!("{}: {}", err_variant(&e), e)),
+            Loaded::Panic(m) => (2, 0, m),
+            Loaded::Ok(f) => {
+                if walk != 0 {
+                    walk_status(&f, true)
+                } else {
+                    (0, 0, String::new())
+                }
+            }
+        };
+        lines.push(format!("{}|{}|{}|{:016x}|{}", st, peak, largest, digest, msg.replace('\n', " ")));
+    }
+    send_result(0, worst_peak, worst_largest, hash64(&lines), &lines.join("\n"));
+}
+
+/// one load of a sequence task, as reported by the child
+#[derive(Clone, Debug, PartialEq, Eq)]
+pub struct SeqItem {
+    pub status: u32,
+    pub peak: u64,
+    pub largest: u64,
+    pub digest: u64,
+    pub msg: String,
+}
+
+pub fn seq_task(files: &[(&[u8], bool)]) -> Vec<u8> {
+    let mut v = Vec::new();
+    v.extend_from_slice(&(files.len() as u32).to_le_bytes());
+    for (b, walk) in files {
+        v.extend_from_slice(&(b.len() as u64).to_le_bytes());
+        v.push(*walk as u8);
+    }
+    for (b, _) in files {
+        v.extend_from_slice(b);
+    }
+    v
+}
+
+pub fn seq_items(r: &TaskResult) -> Vec<SeqItem> {
+    r.msg
+        .lines()
+        .filter_map(|l| {
+            let mut p = l.splitn(5, '|');
+            Some(SeqItem { status: p.next()?.parse().ok()?, peak: p.next()?.parse().ok()?, largest: p.next()?.parse().ok()?, digest: u64::from_str_radix(p.next()?, 16).ok()?, msg: p.next().unwrap_or("").to_string() })
+        })
+        .collect()
 }
 
 pub fn child_main() -> ! {
